@@ -7,11 +7,17 @@ package main
 // instead of the scripted stub below the cache.  Judged by the oracle only.
 //
 //	l3 new <en> <f4> <f6> <m4> <m6> <nets> <cap>
-//	l3 q <client> <copts> <declared E-option|->          one client query for www.geo.test. A
+//	l3 q <client> <copts> <declared>          one client query for www.geo.test. A
 //	l3 race <clientA> <coptsA> <clientB> <coptsB> <declared>   two concurrent clients, slow authority
+//
+// <declared>: what the leaf authority says about the client subnet: "S<bits>" echoes
+// family / source netmask / address of the subnet option it was SENT with SCOPE <bits>
+// (nothing when the query carried none), "E…" attaches that fixed option whatever it
+// was sent (a misbehaving authority), "-" attaches nothing.
 
 import (
 	"fmt"
+	"sort"
 	"strings"
 	"sync"
 	"time"
@@ -20,7 +26,13 @@ import (
 	"github.com/semihalev/sdns/config"
 	"github.com/semihalev/sdns/internal/verif/l3"
 	"github.com/semihalev/sdns/internal/verif/vlib"
+	"github.com/semihalev/sdns/middleware/cache"
 )
+
+type l3Pending struct {
+	m *dns.Msg
+	n int
+}
 
 type l3T struct {
 	w      *l3.World
@@ -29,10 +41,14 @@ type l3T struct {
 	cap    int
 	mu     sync.Mutex
 	n      int             // answers given by the leaf authority so far
-	decl   *optT           // what the authority declares on its next answers
+	decl   string          // what the authority declares on its next answers (S<bits> | E… | -)
+	pending map[uint16]l3Pending // answers built by Tamper, completed by Pre (which sees the query)
+	declared map[int][]optT      // answer id -> subnet option the authority attached
 	seen   [][]dns.EDNS0   // OPT options of the queries that reached the leaf authority for the name
 	delay  time.Duration
 	ledger map[int]*ansRec
+	sentFor map[int]*dns.EDNS0_SUBNET // answer number -> the subnet option the authority was sent for it
+	canon  map[int]int // authority answer number -> order of first appearance at a client (retries burn numbers)
 }
 
 var l3s *l3T
@@ -44,7 +60,8 @@ func l3New(f []string) vlib.Res {
 		l3s.p.Close()
 		l3s.w.Close()
 	}
-	s := &l3T{spec: specFrom(f, false), cap: vlib.Atoi(f[6]), ledger: map[int]*ansRec{}}
+	s := &l3T{spec: specFrom(f, false), cap: vlib.Atoi(f[6]), ledger: map[int]*ansRec{}, decl: "-",
+		pending: map[uint16]l3Pending{}, declared: map[int][]optT{}, canon: map[int]int{}, sentFor: map[int]*dns.EDNS0_SUBNET{}}
 	s.w = l3.NewWorld(false)
 	s.w.AddZone("test.", l3.ZoneOpts{})
 	z := s.w.AddZone("geo.test.", l3.ZoneOpts{})
@@ -71,34 +88,59 @@ func l3New(f []string) vlib.Res {
 					a.A = ansIP(s.n)
 				}
 			}
-			if s.decl != nil {
-				o := m.IsEdns0()
-				if o == nil {
-					o = new(dns.OPT)
-					o.Hdr.Name, o.Hdr.Rrtype = ".", dns.TypeOPT
-					o.SetUDPSize(1232)
-					m.Extra = append(m.Extra, o)
-				}
-				o.Option = append(o.Option, buildOpt(*s.decl))
-			}
+			// the query itself is only visible to Pre (same request, called next)
+			s.pending[m.Id] = l3Pending{m: m, n: s.n}
 			return m
 		},
 		Pre: func(req *dns.Msg) []*dns.Msg {
 			if len(req.Question) == 1 && isQ(req.Question[0]) {
 				s.mu.Lock()
+				defer s.mu.Unlock()
 				var os []dns.EDNS0
+				var sent *dns.EDNS0_SUBNET
 				for _, rr := range req.Extra {
 					if o, ok := rr.(*dns.OPT); ok {
 						os = append(os, o.Option...)
+						for _, x := range o.Option {
+							if e, ok := x.(*dns.EDNS0_SUBNET); ok && sent == nil {
+								sent = e
+							}
+						}
 					}
 				}
 				s.seen = append(s.seen, os)
-				s.mu.Unlock()
+				pd, ok := s.pending[req.Id]
+				if !ok {
+					return nil
+				}
+				s.sentFor[pd.n] = sent
+				delete(s.pending, req.Id)
+				var d *optT
+				switch {
+				case strings.HasPrefix(s.decl, "S") && sent != nil:
+					_, a := normAddr(sent.Address)
+					d = &optT{isECS: true, fam: sent.Family, mask: sent.SourceNetmask, scope: uint8(vlib.Atoi(s.decl[1:])), addr: a}
+				case strings.HasPrefix(s.decl, "E"):
+					o := parseOpt(s.decl)
+					d = &o
+				}
+				if d != nil {
+					o := pd.m.IsEdns0()
+					if o == nil {
+						o = new(dns.OPT)
+						o.Hdr.Name, o.Hdr.Rrtype = ".", dns.TypeOPT
+						o.SetUDPSize(1232)
+						pd.m.Extra = append(pd.m.Extra, o)
+					}
+					o.Option = append(o.Option, buildOpt(*d))
+					s.declared[pd.n] = []optT{*d}
+				}
 			}
 			return nil
 		},
 	})
 	s.p = l3.NewPipe(s.w, l3.PipeOpts{DNSSEC: false, Tweak: func(cfg *config.Config) {
+		cfg.NSID, cfg.CookieSecret = "c19", "c19-secret"
 		cfg.ECS = config.ECSConfig{Enabled: s.spec.en, ForwardV4Max: uint8(s.spec.f4), ForwardV6Max: uint8(s.spec.f6),
 			MinScopeV4: uint8(s.spec.m4), MinScopeV6: uint8(s.spec.m6), ClientNetworks: netTexts(s.spec.nets),
 			CacheLimitTTL: config.Duration{Duration: time.Duration(s.cap) * time.Second}}
@@ -110,11 +152,7 @@ func l3New(f []string) vlib.Res {
 func (s *l3T) setDecl(tok string) {
 	s.mu.Lock()
 	defer s.mu.Unlock()
-	s.decl = nil
-	if tok != "-" {
-		o := parseOpt(tok)
-		s.decl = &o
-	}
+	s.decl = tok
 }
 
 // one runs one client query; returns the served answer id and the reply.
@@ -136,18 +174,29 @@ func (s *l3T) judge(c clientT, sent []optT, served int, reply *dns.Msg, fresh bo
 	if rec == nil || !rec.wellformed || rec.eff == 0 {
 		return ""
 	}
+	// the audience of the answer: from the cache, the network the authority declared;
+	// straight from an upstream lookup, the network that lookup was made FOR (what
+	// the authority was sent) — an authority that declares some other network is
+	// lying to the client that asked, which is not sdns's doing
+	fam, addr, bits := rec.fam, rec.addr, rec.eff
+	how := "from-cache"
+	if fresh {
+		how = "from-shared-upstream-lookup"
+		sub := s.sentFor[served]
+		if sub == nil {
+			return ""
+		}
+		fam, addr = normAddr(sub.Address)
+		bits = min(bits, int(sub.SourceNetmask))
+	}
 	if naiveAllows(s.spec, c, true) {
 		for _, o := range sent {
-			if fam, addr, ok := usableECS(o); ok && fam == rec.fam && int(o.mask) >= rec.eff && bitsEqual(addr, rec.addr, rec.eff) {
+			if ofam, oaddr, ok := usableECS(o); ok && ofam == fam && int(o.mask) >= bits && bitsEqual(oaddr, addr, bits) {
 				return ""
 			}
 		}
 	}
-	how := "from-cache"
-	if fresh {
-		how = "from-shared-upstream-lookup"
-	}
-	return fail("l3/scoped-answer-served-outside-scope/"+how, "answer %d tailored for %x/%d", served, rec.addr, rec.eff)
+	return fail("l3/scoped-answer-served-outside-scope/"+how, "answer %d tailored for %x/%d", served, addr, bits)
 }
 
 // note records, for every answer the authority gave since `from`, what it declared and what it had been sent.
@@ -161,11 +210,8 @@ func (s *l3T) note(fromN, fromSeen int) string {
 		if j := fromSeen + (i - fromN - 1); j < len(s.seen) {
 			seen = s.seen[j]
 		}
-		has := s.decl != nil
-		if has {
-			up = []optT{*s.decl}
-		}
-		s.ledger[i] = newRec(s.spec, 0, false, up, has, seen)
+		up = s.declared[i]
+		s.ledger[i] = newRec(s.spec, 0, false, up, true, seen)
 		// what left sdns towards the authority: only a clamped subnet option, nothing else of the client's
 		for _, o := range seen {
 			sub, ok := o.(*dns.EDNS0_SUBNET)
@@ -184,6 +230,32 @@ func (s *l3T) note(fromN, fromSeen int) string {
 	return or
 }
 
+// normSeen renders what reached the authority with family-1 addresses in their 4-byte form.
+func normSeen(os []dns.EDNS0) string {
+	var out []dns.EDNS0
+	for _, o := range os {
+		if e, ok := o.(*dns.EDNS0_SUBNET); ok {
+			if fam, a := normAddr(e.Address); fam == 4 {
+				c := *e
+				c.Address = a
+				o = &c
+			}
+		}
+		out = append(out, o)
+	}
+	return renderOpts(out, true)
+}
+
+func (s *l3T) canonical(served int) int {
+	if served < 0 {
+		return served
+	}
+	if _, ok := s.canon[served]; !ok {
+		s.canon[served] = len(s.canon) + 1
+	}
+	return s.canon[served]
+}
+
 func l3Q(f []string) vlib.Res {
 	s := l3s
 	c := parseClient(f[0])
@@ -193,21 +265,51 @@ func l3Q(f []string) vlib.Res {
 	s.delay = 0
 	s.mu.Unlock()
 	served, reply, sent := s.one(c, f[1])
+	if reply == nil {
+		return vlib.Res{Impl: "noreply", Oracle: fail("l3/no-reply", "")}
+	}
 	or := s.note(n0, seen0)
 	s.mu.Lock()
 	fresh := s.n > n0
 	up := "hit"
 	if fresh && len(s.seen) > seen0 {
-		up = renderOpts(s.seen[len(s.seen)-1], true)
+		up = normSeen(s.seen[len(s.seen)-1])
 	}
 	s.mu.Unlock()
 	if or == "" {
 		or = s.judge(c, sent, served, reply, fresh)
 	}
+	ropt := "noopt"
+	if o := reply.IsEdns0(); o != nil {
+		parts := strings.Split(renderOpts(o.Option, false), ",")
+		sort.Strings(parts)
+		ropt = strings.Join(parts, ",")
+	}
+	impl := fmt.Sprintf("up=hit ans=%d ropt=%s st=- ttl=- pf=-", s.canonical(served), ropt)
+	tags := "nt,l3"
+	if fresh {
+		stS, ttlS, pfS := "none", "-", "-"
+		for _, e := range cache.VerifC19Entries(s.p.Cache) {
+			if idOfMsg(e.Msg) == served && strings.EqualFold(e.Q.Name, l3Name) {
+				stS = "shared"
+				if e.Scope.IsValid() {
+					stS = renderPrefix(e.Scope)
+					tags += ",l3-stored-scoped"
+				}
+				ttlS, pfS = fmt.Sprint(int(e.TTL/time.Second)), vlib.B(e.PrefetchEligible)
+				if or == "" {
+					if v := checkStored(s.ledger[served], s.cap, e.Scope, int(e.TTL/time.Second), e.PrefetchEligible); v != "" {
+						or = strings.Replace(v, "sig=scoped/", "sig=l3/scoped/", 1)
+					}
+				}
+			}
+		}
+		impl = fmt.Sprintf("up=%s ans=%d ropt=%s st=%s ttl=%s pf=%s", up, s.canonical(served), ropt, stS, ttlS, pfS)
+	}
 	if or == "" {
 		or = "ok"
 	}
-	return vlib.Res{Impl: fmt.Sprintf("up=%s ans=%d", up, served), Oracle: or, Tags: "nt,l3"}
+	return vlib.Res{Impl: impl, Oracle: or, Tags: tags}
 }
 
 func l3Race(f []string) vlib.Res {
